@@ -21,12 +21,13 @@ CONSTANTS N,          \* heights
 VARIABLES stored, pruned, foreign,   \* the header store; foreign: stored heights holding a non-honest header
           sampled,                    \* heights marked sampled (only matters for the pruner's permission)
           now, netHead,               \* clock, height of the network head
-          peers, phase, subj, ongoing, hsub,   \* syncer worker state
+          peers, trusted,             \* connected peers (0..2), whether one of them is trusted
+          phase, subj, ongoing, hsub, \* syncer worker state
           sawPeer,                    \* try_init has passed wait_connected_trusted (it then finishes even if peers leave)
           lastFetch                   \* observation: the last batch requested with the facts at request time
 
 svars == <<stored, pruned, foreign, sampled>>
-vars  == <<stored, pruned, foreign, sampled, now, netHead, peers, phase, subj, ongoing, hsub, sawPeer, lastFetch>>
+vars  == <<stored, pruned, foreign, sampled, now, netHead, peers, trusted, phase, subj, ongoing, hsub, sawPeer, lastFetch>>
 
 NoFetch == <<>>
 Synced == stored \cup pruned
@@ -35,7 +36,7 @@ StoreHead == IF stored = {} THEN 0 ELSE MaxOf(stored)
 
 Init == /\ stored = {} /\ pruned = {} /\ foreign = {} /\ sampled = {}
         /\ now = 1 /\ netHead = 1
-        /\ peers = 0 /\ phase = "connecting" /\ subj = 0 /\ ongoing = <<>> /\ hsub = FALSE /\ sawPeer = FALSE
+        /\ peers = 0 /\ trusted = FALSE /\ phase = "connecting" /\ subj = 0 /\ ongoing = <<>> /\ hsub = FALSE /\ sawPeer = FALSE
         /\ lastFetch = NoFetch
 
 (* ---- store insertion as the syncer sees it ---- *)
@@ -54,18 +55,25 @@ DoInsert(lo, hi, isForeign) ==
 
 (* ---- environment ---- *)
 NewBlock == /\ netHead < N /\ netHead' = netHead + 1 /\ now' = now + 1
-            /\ UNCHANGED <<stored, pruned, foreign, sampled, peers, phase, subj, ongoing, hsub, lastFetch, sawPeer>>
+            /\ UNCHANGED <<stored, pruned, foreign, sampled, peers, trusted, phase, subj, ongoing, hsub, lastFetch, sawPeer>>
 
-Connect == /\ peers = 0 /\ peers' = 1
+Connect == /\ peers = 0 /\ peers' = 1 /\ trusted' = TRUE      \* a trusted peer connects
            /\ sawPeer' = (sawPeer \/ phase = "connecting")
            /\ UNCHANGED <<stored, pruned, foreign, sampled, now, netHead, phase, subj, ongoing, hsub, lastFetch>>
 
 \* all peers disconnect: the connected loop ends, the ongoing batch is cancelled
-Disconnect == /\ peers = 1 /\ peers' = 0 /\ phase' = "connecting" /\ ongoing' = <<>> /\ hsub' = FALSE
+Disconnect == /\ peers >= 1 /\ peers' = 0 /\ trusted' = FALSE /\ phase' = "connecting" /\ ongoing' = <<>> /\ hsub' = FALSE
               /\ UNCHANGED <<stored, pruned, foreign, sampled, now, netHead, subj, lastFetch, sawPeer>>
 
+\* an ordinary (untrusted) peer joins; the trusted peer leaves while an ordinary one stays: the
+\* syncer keeps working (it needs *a* peer to fetch, a trusted one only to initialise)
+PlainJoin == /\ peers = 1 /\ peers' = 2
+             /\ UNCHANGED <<stored, pruned, foreign, sampled, now, netHead, trusted, phase, subj, ongoing, hsub, lastFetch, sawPeer>>
+TrustedLeave == /\ peers = 2 /\ trusted /\ peers' = 1 /\ trusted' = FALSE
+                /\ UNCHANGED <<stored, pruned, foreign, sampled, now, netHead, phase, subj, ongoing, hsub, lastFetch, sawPeer>>
+
 MarkSampled(h) == /\ h \in stored /\ sampled' = sampled \cup {h}
-                  /\ UNCHANGED <<stored, pruned, foreign, now, netHead, peers, phase, subj, ongoing, hsub, lastFetch, sawPeer>>
+                  /\ UNCHANGED <<stored, pruned, foreign, now, netHead, peers, trusted, phase, subj, ongoing, hsub, lastFetch, sawPeer>>
 
 \* what the pruner may remove (C35): outside the pruning window, and inside the sampling window only
 \* sampled headers that are not an edge of the synced ranges
@@ -74,7 +82,7 @@ Prunable(h) == /\ h \in stored /\ ~InWin(h, WPrune)
 Prune(h) == /\ Prunable(h)
             /\ stored' = stored \ {h} /\ pruned' = pruned \cup {h} /\ sampled' = sampled \ {h}
             /\ foreign' = foreign \ {h}
-            /\ UNCHANGED <<now, netHead, peers, phase, subj, ongoing, hsub, lastFetch, sawPeer>>
+            /\ UNCHANGED <<now, netHead, peers, trusted, phase, subj, ongoing, hsub, lastFetch, sawPeer>>
 
 (* ---- the worker ---- *)
 \* connecting_event_loop / try_init: a trusted peer is connected, the network head is fetched and
@@ -87,9 +95,9 @@ TryInit ==
           /\ IF skip THEN UNCHANGED svars ELSE DoInsert(h, h, FALSE)
           /\ subj' = IF h > subj THEN h ELSE subj
     \* with no peer left the connected loop returns at once and the worker waits for peers again
-    /\ phase' = (IF peers = 1 THEN "connected" ELSE "connecting") /\ hsub' = (peers = 1)
+    /\ phase' = (IF peers >= 1 THEN "connected" ELSE "connecting") /\ hsub' = (peers >= 1)
     /\ sawPeer' = FALSE
-    /\ UNCHANGED <<now, netHead, peers, ongoing, lastFetch>>
+    /\ UNCHANGED <<now, netHead, peers, trusted, ongoing, lastFetch>>
 
 \* a header announced on header-sub
 HeaderSub ==
@@ -98,12 +106,12 @@ HeaderSub ==
     /\ IF stored # {} /\ StoreHead + 1 = netHead /\ HonestInsertOk(netHead, netHead)
        THEN DoInsert(netHead, netHead, FALSE)
        ELSE UNCHANGED svars
-    /\ UNCHANGED <<now, netHead, peers, phase, ongoing, hsub, lastFetch, sawPeer>>
+    /\ UNCHANGED <<now, netHead, peers, trusted, phase, ongoing, hsub, lastFetch, sawPeer>>
 
 \* fetch_next_batch
 NextBatch == CalcRange(subj, Synced, Batch)
 FetchNext ==
-    /\ phase = "connected" /\ ongoing = <<>> /\ peers = 1 /\ subj # 0
+    /\ phase = "connected" /\ ongoing = <<>> /\ peers >= 1 /\ subj # 0
     /\ LET b == NextBatch IN
        /\ b # {}
        /\ LET e == MaxOf(b) + 1 IN
@@ -113,25 +121,25 @@ FetchNext ==
        /\ ongoing' = <<MinOf(b), MaxOf(b)>>
        /\ lastFetch' = [lo |-> MinOf(b), hi |-> MaxOf(b), subj |-> subj, synced |-> Synced,
                         old |-> {h \in Synced : h > MaxOf(b) /\ ~InWin(h, WSamp)}]
-    /\ UNCHANGED <<stored, pruned, foreign, sampled, now, netHead, peers, phase, subj, hsub, sawPeer>>
+    /\ UNCHANGED <<stored, pruned, foreign, sampled, now, netHead, peers, trusted, phase, subj, hsub, sawPeer>>
 
 \* the batch comes back: honest headers, headers of a foreign chain, or any failure
 BatchOk ==
     /\ phase = "connected" /\ ongoing # <<>>
     /\ IF HonestInsertOk(ongoing[1], ongoing[2]) THEN DoInsert(ongoing[1], ongoing[2], FALSE) ELSE UNCHANGED svars
     /\ ongoing' = <<>>
-    /\ UNCHANGED <<now, netHead, peers, phase, subj, hsub, lastFetch, sawPeer>>
+    /\ UNCHANGED <<now, netHead, peers, trusted, phase, subj, hsub, lastFetch, sawPeer>>
 BatchForeign ==
     /\ phase = "connected" /\ ongoing # <<>>
     /\ IF ForeignInsertOk(ongoing[1], ongoing[2]) THEN DoInsert(ongoing[1], ongoing[2], TRUE) ELSE UNCHANGED svars
     /\ ongoing' = <<>>
-    /\ UNCHANGED <<now, netHead, peers, phase, subj, hsub, lastFetch, sawPeer>>
+    /\ UNCHANGED <<now, netHead, peers, trusted, phase, subj, hsub, lastFetch, sawPeer>>
 BatchFail ==
     /\ phase = "connected" /\ ongoing # <<>> /\ ongoing' = <<>>
-    /\ UNCHANGED <<stored, pruned, foreign, sampled, now, netHead, peers, phase, subj, hsub, lastFetch, sawPeer>>
+    /\ UNCHANGED <<stored, pruned, foreign, sampled, now, netHead, peers, trusted, phase, subj, hsub, lastFetch, sawPeer>>
 
 Worker == TryInit \/ HeaderSub \/ FetchNext \/ BatchOk
-Env    == \/ NewBlock \/ Connect \/ Disconnect \/ BatchFail
+Env    == \/ NewBlock \/ Connect \/ Disconnect \/ BatchFail \/ PlainJoin \/ TrustedLeave
           \/ (EnablePrune /\ \E h \in 1..N : Prune(h))
           \/ (EnablePrune /\ \E h \in 1..N : MarkSampled(h))
           \/ (EnableForeign /\ BatchForeign)
